@@ -88,6 +88,7 @@ def effStr : Effect → String
   | .read u => "read:" ++ hexName u
   | .listed => "list"
   | .cert cn => "cert:" ++ hexName cn
+  | .copied o r => "copy:" ++ hexName o ++ ":" ++ hexName r
 
 def denyClass : Deny → String
   | .session | .notAdmin | .notSelf => "deny:401"
@@ -106,6 +107,9 @@ def parseEffect (s : String) : Option Effect :=
     | ["chg", h] => (unhexName h).map .changed
     | ["read", h] => (unhexName h).map .read
     | ["cert", h] => (unhexName h).map .cert
+    | ["copy", o, r] => do
+      let o ← unhexName o; let r ← unhexName r
+      pure (.copied o r)
     | _ => none
 
 def cfgStep (st : DState) : List String → Option DState
